@@ -129,6 +129,15 @@ def evaluate(case, native):
         return None, 'no native result'
     if 'panic' in native:
         return True, 'the real code panicked: ' + native['panic'][-300:]
+    if kind == 'fold_order':
+        totals = [r + a for r, a in zip(case['route_estimates'], case['activity_estimates'])]
+        best = float(min(totals))
+        seen = sorted({(r['threads'], tuple(r['cost']) if r['cost'] else None) for r in native['results']})
+        bad = [(t, c) for t, c in seen if c is None or c[0] != best]
+        if bad:
+            return True, (f'parallel insertion evaluation returned cost {[c for _, c in bad][0]} with {sorted({t for t, _ in bad})} thread(s) although the cheapest '
+                          f'(route + activity estimate) over the jobs {totals} is {best}; results by thread count: {seen}')
+        return False, f'every thread count returned the minimum {best}'
     if kind == 'reducer':
         import struct
 
